@@ -116,8 +116,14 @@ func safeDiff(on string, o []byte, nn string, n []byte) (out []byte, panicked in
 			panicked = fmt.Sprint(r)
 		}
 	}()
-	return diff.Diff(on, o, nn, n), nil
+	out = diff.Diff(on, o, nn, n)
+	// what was returned stays what it is: a later call on the same goroutine (pooled or package-level storage comes
+	// round again) must not reach into an earlier result
+	diff.Diff("decoy-old", decoyOld, "decoy-new", decoyNew)
+	return out, nil
 }
+
+var decoyOld, decoyNew = []byte("decoy 1\ndecoy 2\ndecoy 3\ndecoy 4\n"), []byte("decoy 1\nDECOY 2\ndecoy 3\ndecoy 5\ndecoy 6\n")
 
 var (
 	selfbug  = flag.String("selfbug", "", "corrupt the real output before tokenising (self-test of the oracle)")
